@@ -1,4 +1,4 @@
 #!/bin/bash
 # every behaviour-preserving control must leave every quick check silent
-cd /verif
+cd "$(dirname "$(readlink -f "${BASH_SOURCE[0]}")")/.."
 for d in seeded_equiv/*/; do echo "== $(basename $d)"; tools/try_equiv.sh $d "$@" | grep -v "^ok" ; done
